@@ -16,6 +16,11 @@ RULE = ("direction 1: case = (head name, argument items with literal kind and "
         "never invoked, only plain literals bound), 'quant' (a lattice "
         "configuration printed through the grammar: get_quantizer(text) equals "
         "the Python call in attributes, attribute types and outputs). "
+        "stateful part: 'seq' = list of 2..8 parser calls in one process "
+        "(safe_eval with and without caller args/kwargs, get_quantizer, str "
+        "round trip, GetParams) over argument texts shared between names; "
+        "every step must equal the stateless reference for that call alone and "
+        "GetParams results must not be aliased. "
         "direction 2: case = configuration of the C09 option lattice (every "
         "single option per alpha kind + pairwise cover + Hypothesis draws): "
         "str(q) must not raise, get_quantizer(str(q)) must build and give "
@@ -43,7 +48,9 @@ ASSUMPTIONS = [
 BUDGET_S = {"quick": 70, "thorough": 840}
 _LITS = ["lit:int", "lit:float", "lit:bool", "lit:none", "lit:str", "lit:list",
          "lit:list1"]
-_REQ = (["stub", "order", "exotic", "quant", "str_lattice", "str_hyp",
+_REQ = (["stub", "order", "exotic", "quant", "str_lattice", "str_hyp", "seq",
+         "seq_kwargs_then_parse", "seq_op:eval", "seq_op:eval_kw",
+         "seq_op:get_quantizer", "seq_op:str_rt", "seq_op:getparams",
          "slot:pos", "slot:kw", "ws", "sentinel_text", "quant_built",
          "mutate:trainable", "mutate:qdense", "mutate:assign_symmetric",
          "orig_ok"] + _LITS + ["str:" + c for c in O.CLASSES] +
@@ -348,8 +355,177 @@ def quant_case_strategy():
   return case()
 
 
+# ---------------------------------------------------------------------------
+# stateful part: sequences of parser calls inside one process.  Every step is
+# judged against the stateless reference for that call alone.
+
+SEQ_TEMPLATES = ["(4,0,1,var_name='s%d')", "(8,var_name='s%d')",
+                 "(var_name='s%d')", "(4,0,1,alpha='auto_po2',var_name='s%d')"]
+# real classes for which the template is a valid constructor call
+SEQ_REAL = {0: ["quantized_bits", "quantized_linear", "quantized_relu",
+                "quantized_hswish"],
+            1: ["quantized_bits", "quantized_linear", "quantized_relu",
+                "quantized_po2", "quantized_relu_po2", "quantized_hswish"],
+            2: ["quantized_bits", "quantized_linear", "quantized_relu",
+                "quantized_po2", "quantized_relu_po2", "quantized_hswish"],
+            3: ["quantized_bits", "quantized_linear", "quantized_hswish"]}
+SEQ_EXTRA = [{"alpha": "auto"}, {"use_stochastic_rounding": True},
+             {"qnoise_factor": 0.5, "alpha": "auto_po2"}, {"bits": 3}]
+SEQ_OPS = ["eval", "eval_kw", "get_quantizer", "str_rt", "getparams"]
+
+
+def check_seq(case):
+  """case = {"mode": "seq", "steps": [{"op", "name", "tpl", "extra",
+  "params"}]}.  The argument texts carry a nonce derived from the step list,
+  so a case never shares parser state with another one (a shrunk case replays
+  in a fresh process exactly as it ran)."""
+  from qkeras import quantizers as Q  # pylint: disable=g-import-not-at-top
+  from qkeras import safe_eval as _unused  # pylint: disable=g-import-not-at-top,unused-import
+  import sys  # pylint: disable=g-import-not-at-top
+  SE = sys.modules["qkeras.safe_eval"]
+  nonce = core.jhash(case["steps"]) % (10 ** 9)
+  returned = {}     # argument text -> objects returned by GetParams so far
+  done = []
+  try:
+    for i, st in enumerate(case["steps"]):
+      op, name = st["op"], st["name"]
+      argtext = SEQ_TEMPLATES[st["tpl"]] % nonce
+      text = name + argtext
+      _, rargs, rkw = L.py_eval_call(text)
+      base = {"clause": "stateful", "op": op,
+              "after_call_with_kwargs": "eval_kw" in done}
+      where = "step %d %s(%r) after %s" % (i, op, text, done)
+      try:
+        if op in ("eval", "eval_kw"):
+          extra = SEQ_EXTRA[st["extra"]] if op == "eval_kw" else {}
+          params = list(st.get("params") or []) if op == "eval_kw" else []
+          r = SE.safe_eval(text, stub_table(), *params, **extra)
+          want_a = rargs + params
+          want_k = dict(rkw, **extra)
+          if not (isinstance(r, Rec) and r.head == name):
+            return [("stateful", dict(base, what="wrong_callee"), where)]
+          if not (len(r.args) == len(want_a) and all(
+              L.same_value(x, y) for x, y in zip(r.args, want_a))):
+            return [("stateful", dict(base, what="args"),
+                     "%s: args %r, stateless reference %r" %
+                     (where, r.args, want_a))]
+          if sorted(r.kwargs) != sorted(want_k) or not all(
+              L.same_value(r.kwargs[k], want_k[k]) for k in want_k):
+            return [("stateful", dict(base, what="kwargs"),
+                     "%s: kwargs %r, stateless reference %r" %
+                     (where, r.kwargs, want_k))]
+        elif op == "getparams":
+          a, k = SE.GetParams(argtext)
+          if not (len(a) == len(rargs) and all(
+              L.same_value(x, y) for x, y in zip(a, rargs))) or (
+                  sorted(k) != sorted(rkw)) or not all(
+                      L.same_value(k[x], rkw[x]) for x in rkw):
+            return [("stateful", dict(base, what="getparams_value"),
+                     "%s: (%r, %r), stateless reference (%r, %r)" %
+                     (where, a, k, rargs, rkw))]
+          for pa, pk in returned.get(argtext, []):
+            if pa is a or pk is k:
+              return [("stateful", dict(base, what="aliased_result"),
+                       "%s: GetParams returned the same list/dict object "
+                       "as an earlier call" % where)]
+          returned.setdefault(argtext, []).append((a, k))
+        else:
+          direct = getattr(Q, name)(*rargs, **rkw)
+          if op == "get_quantizer":
+            got = Q.get_quantizer(text)
+          else:
+            got = Q.get_quantizer(str(direct))
+          if type(got) is not type(direct):  # pylint: disable=unidiomatic-typecheck
+            return [("stateful", dict(base, what="wrong_class"), where)]
+          skip = ("var_name",) if op == "str_rt" else ()
+          for p_ in O.signature_params(name):
+            if p_ in skip or not hasattr(direct, p_):
+              continue
+            d = _attr_same(getattr(got, p_, None), getattr(direct, p_))
+            if d is not None and not (op == "str_rt" and d == "type"):
+              return [("stateful", dict(base, what="attr", param=p_),
+                       "%s: .%s = %r, stateless reference %r" %
+                       (where, p_, getattr(got, p_, None),
+                        getattr(direct, p_)))]
+      except Exception as e:  # pylint: disable=broad-except
+        if isinstance(e, core.HarnessError):
+          raise
+        return [("stateful", dict(base, what="raises",
+                                  exc=type(e).__name__),
+                 "%s raises %r" % (where, e))]
+      done.append(op)
+  finally:
+    core.reset_globals()
+  return []
+
+
+def seq_case_strategy():
+  from hypothesis import strategies as st  # pylint: disable=g-import-not-at-top
+
+  @st.composite
+  def step(draw):
+    op = draw(st.sampled_from(SEQ_OPS))
+    tpl = draw(st.integers(0, len(SEQ_TEMPLATES) - 1))
+    if op in ("get_quantizer", "str_rt"):
+      name = draw(st.sampled_from(SEQ_REAL[tpl]))
+    else:
+      name = draw(st.sampled_from(HEADS))
+    s = {"op": op, "name": name, "tpl": tpl}
+    if op == "eval_kw":
+      s["extra"] = draw(st.integers(0, len(SEQ_EXTRA) - 1))
+      s["params"] = draw(st.lists(st.sampled_from([1, 0.5, "x", None, True]),
+                                  max_size=2))
+    return s
+
+  return st.lists(step(), min_size=2, max_size=8).map(
+      lambda steps: {"mode": "seq", "steps": steps})
+
+
+# deterministic instances: a call with caller keyword arguments followed by
+# parses of the same argument text under the same and under other names
+SEQ_FIXED = [
+    [{"op": "eval_kw", "name": "quantized_bits", "tpl": 0, "extra": 0,
+      "params": []},
+     {"op": "eval", "name": "quantized_bits", "tpl": 0},
+     {"op": "eval", "name": "quantized_relu", "tpl": 0},
+     {"op": "get_quantizer", "name": "quantized_bits", "tpl": 0},
+     {"op": "get_quantizer", "name": "quantized_relu", "tpl": 0},
+     {"op": "getparams", "name": "rec", "tpl": 0},
+     {"op": "getparams", "name": "rec", "tpl": 0}],
+    [{"op": "getparams", "name": "rec", "tpl": 1},
+     {"op": "eval_kw", "name": "rec", "tpl": 1, "extra": 2, "params": [1]},
+     {"op": "getparams", "name": "rec", "tpl": 1},
+     {"op": "eval", "name": "quantized_po2", "tpl": 1},
+     {"op": "str_rt", "name": "quantized_bits", "tpl": 1},
+     {"op": "get_quantizer", "name": "quantized_po2", "tpl": 1}],
+    [{"op": "eval_kw", "name": "quantized_linear", "tpl": 3, "extra": 1,
+      "params": []},
+     {"op": "eval_kw", "name": "quantized_linear", "tpl": 3, "extra": 3,
+      "params": ["x"]},
+     {"op": "eval", "name": "quantized_hswish", "tpl": 3},
+     {"op": "get_quantizer", "name": "quantized_hswish", "tpl": 3},
+     {"op": "str_rt", "name": "quantized_linear", "tpl": 3}],
+    [{"op": "eval_kw", "name": "quantized_relu", "tpl": 2, "extra": 0,
+      "params": []},
+     {"op": "get_quantizer", "name": "quantized_relu", "tpl": 2},
+     {"op": "eval", "name": "ternary", "tpl": 2}],
+]
+
+
+def seq_oracle(ctx, case):
+  fails = check_seq(case)
+  ops = [s["op"] for s in case["steps"]]
+  labs = ["seq"] + sorted(set("seq_op:" + o for o in ops))
+  if "eval_kw" in ops and ops.index("eval_kw") < len(ops) - 1:
+    labs.append("seq_kwargs_then_parse")
+  ctx.tick(case, labels=labs, nontrivial=len(ops) >= 2, sample_label="seq")
+  return fails
+
+
 def text_oracle(ctx, case):
   mode = case["mode"]
+  if mode == "seq":
+    return seq_oracle(ctx, case)
   st = {}
   if mode == "stub":
     fails = check_stub(case)
@@ -599,6 +775,15 @@ def run(ctx):
                name="c10_exotic")
   core.hyp_run(ctx, quant_case_strategy(), torc, per(480, 6000),
                name="c10_quant")
+
+  # stateful part: fixed sequences (worker 0) + generated step lists
+  if ctx.idx == 0:
+    for steps in SEQ_FIXED:
+      case = {"mode": "seq", "steps": steps}
+      for sc, sig, detail in seq_oracle(ctx, case):
+        ctx.fail(sc, sig, case, detail)
+  core.hyp_run(ctx, seq_case_strategy(), torc, per(800, 30000),
+               name="c10_seq")
 
   # direction 2: random configurations
   @st_.composite
